@@ -17,7 +17,7 @@ import time
 VERIF = os.path.dirname(os.path.dirname(os.path.abspath(__file__)))
 REPO = os.environ.get("SHROUD_REPO", "/repo")
 LEAN = os.path.join(VERIF, "lean")
-DRIVER = os.path.join(LEAN, ".lake", "build", "bin", "driver")
+BIN = os.path.join(LEAN, ".lake", "build", "bin")
 EVIDENCE = os.path.join(VERIF, "evidence")
 REPLAYS = os.path.join(VERIF, "replays")
 CORPUS = os.path.join(VERIF, "corpus")
@@ -121,6 +121,25 @@ def lean_sources():
     return sorted(res)
 
 
+def module_closure(modules):
+    """Lean source files of `modules` and of everything they import from this project."""
+    seen, todo, files = set(), list(modules), []
+    while todo:
+        m = todo.pop()
+        if m in seen:
+            continue
+        seen.add(m)
+        path = os.path.join(LEAN, *m.split(".")) + ".lean"
+        if not os.path.exists(path):
+            continue
+        files.append(path)
+        for ln in open(path):
+            mm = re.match(r"\s*(?:public\s+)?import\s+((?:ShroudVerif|Driver)[\w.]*)", ln)
+            if mm:
+                todo.append(mm.group(1))
+    return sorted(files)
+
+
 def lake_build(targets, timeout=3000) -> BuildResult:
     """Build lake targets under an exclusive lock."""
     br = BuildResult()
@@ -181,8 +200,9 @@ def print_axioms(module: str, theorems, timeout=900):
 class Driver:
     """Batch interface to the compiled Lean model driver."""
 
-    def __init__(self):
-        self.path = DRIVER
+    def __init__(self, name="drv_lines"):
+        self.name = name
+        self.path = os.path.join(BIN, name)
 
     def available(self):
         return os.path.exists(self.path)
@@ -276,7 +296,7 @@ class Ctx:
         return True
 
     # --- lean
-    def lean(self, modules, theorems_by_module, extra_targets=("driver",)):
+    def lean(self, modules, theorems_by_module, extra_targets=("drv_lines",)):
         """Build property modules + driver, audit axioms.  theorems_by_module:
         {module: [theorem names]} are the proof obligations of this property."""
         targets = list(modules) + list(extra_targets)
@@ -308,7 +328,7 @@ class Ctx:
                 else:
                     discharged += 1
                     axioms_seen |= set(a)
-        hits = scan_forbidden(lean_sources())
+        hits = scan_forbidden(module_closure(list(theorems_by_module.keys()) + list(modules)))
         if hits:
             self.proof_broken("source-scan", "\n".join(hits))
         self.cov["discharged"] = discharged
